@@ -33,14 +33,25 @@ fn px_sendmsg<D: vmm_sys_util::sock_ctrl_msg::IntoIovec>(fd: RawFd, out_data: &[
     g::ghost_sendmsg(fd, out_data, out_fds)
 }
 
+/// stub for `impl From<vhost_user::Error> for io::Error` (io::Error::other(e)): the boxed custom error makes
+/// io::Error's bit-packed representation opaque to CBMC and every later drop explores the mutually recursive
+/// drop glue of io::Error <-> vhost_user::Error (measured: OOM at 14 GB).  Only Ok/Err matters to the proxy's
+/// callers here, so the conversion keeps the kind and drops the payload.
+fn cheap_error(e: Error) -> io::Error {
+    std::mem::forget(e);
+    io::Error::from(io::ErrorKind::Other)
+}
+
 /// `op`: backend request code (6..=10); `class`: ack header class (0 conformant, 1 foreign code,
 /// 2 REPLY bit missing, 3 version 2) - concrete per harness, see vu_frontend.rs for why.
-fn e_proxy(op: u32, class: usize) {
+fn e_proxy(op: u32, class: usize, fl: u8) {
     // SAFETY: descriptor 5 is never used for real I/O
     let b = ManuallyDrop::new(Backend::from_stream(unsafe { UnixStream::from_raw_fd(5) }));
-    let reply_ack: bool = kani::any();
-    let so: bool = kani::any();
-    let shm: bool = kani::any();
+    // the three negotiated flags are concrete per harness (bit 0 reply-ack, bit 1 shared-object, bit 2 shmem):
+    // symbolic flags multiply the error paths, each of which builds a boxed io::Error (see cheap_error)
+    let reply_ack: bool = fl & 1 != 0;
+    let so: bool = fl & 2 != 0;
+    let shm: bool = fl & 4 != 0;
     b.set_reply_ack_flag(reply_ack);
     b.set_shared_object_flag(so);
     b.set_shmem_flag(shm);
@@ -88,7 +99,7 @@ fn e_proxy(op: u32, class: usize) {
     let ok = r.is_ok();
     let okval = if let Ok(v) = &r { *v } else { 1 };
     std::mem::forget(r);
-    kani::cover!(if class == 0 { ok && reply_ack } else { !ok && reply_ack && gate }, "witness: acknowledged request succeeds / foreign ack is refused");
+    kani::cover!(if !gate { !ok } else if class == 0 { ok } else { !ok }, "witness: request succeeds / is refused (gate) / foreign ack is refused");
     // SAFETY: ghost state
     unsafe {
         if !gate {
@@ -123,7 +134,7 @@ fn e_proxy(op: u32, class: usize) {
 }
 
 macro_rules! e_px {
-    ($name:ident, $op:expr, $class:expr) => {
+    ($name:ident, $op:expr, $class:expr, $fl:expr) => {
         #[kani::proof]
         #[kani::unwind(5)]
         #[kani::stub(vmm_sys_util::sock_ctrl_msg::raw_recvmsg, px_recvmsg)]
@@ -131,25 +142,128 @@ macro_rules! e_px {
         #[kani::stub(libc::close, g::ghost_close)]
         #[kani::stub(<std::os::fd::OwnedFd as std::ops::Drop>::drop, g::ghost_ownedfd_drop)]
         #[kani::stub(std::alloc::handle_alloc_error, g::ghost_alloc_error)]
+        #[kani::stub(<std::io::Error as std::convert::From<Error>>::from, cheap_error)]
         fn $name() {
-            e_proxy($op, $class)
+            e_proxy($op, $class, $fl)
         }
     };
 }
 
-// @harness props=C18,C01,C06,C07,C10 tier=quick reach=off timeout=500 bound="Backend::shared_object_add: all uuid bytes, three negotiated flags, ack value and 0..=1 ack descriptors symbolic; conformant ack header" stubs="raw_recvmsg/raw_sendmsg (ghost socket + lock probe), close, OwnedFd::drop, handle_alloc_error"
-e_px!(e_px_shared_object_add, 6, 0);
-// @harness props=C18,C01,C06,C07,C10 tier=thorough reach=off timeout=500 bound="Backend::shared_object_remove: as shared_object_add" stubs="raw_recvmsg/raw_sendmsg (ghost socket + lock probe), close, OwnedFd::drop, handle_alloc_error"
-e_px!(e_px_shared_object_remove, 7, 0);
-// @harness props=C18,C01,C06,C07,C09,C10 tier=quick reach=off timeout=500 bound="Backend::shared_object_lookup (with descriptor): as shared_object_add" stubs="raw_recvmsg/raw_sendmsg (ghost socket + lock probe), close, OwnedFd::drop, handle_alloc_error"
-e_px!(e_px_shared_object_lookup, 8, 0);
-// @harness props=C18,C01,C06,C07,C09,C10 tier=quick reach=off timeout=500 bound="Backend::shmem_map (with descriptor): all 40 body bytes, three flags, ack value, 0..=1 ack descriptors; conformant ack header" stubs="raw_recvmsg/raw_sendmsg (ghost socket + lock probe), close, OwnedFd::drop, handle_alloc_error"
-e_px!(e_px_shmem_map, 9, 0);
-// @harness props=C18,C01,C06,C07,C10 tier=thorough reach=off timeout=500 bound="Backend::shmem_unmap: as shmem_map" stubs="raw_recvmsg/raw_sendmsg (ghost socket + lock probe), close, OwnedFd::drop, handle_alloc_error"
-e_px!(e_px_shmem_unmap, 10, 0);
-// @harness props=C18,C06 tier=quick reach=off timeout=500 bound="Backend::shared_object_add answered by an ack for another request code" stubs="raw_recvmsg/raw_sendmsg (ghost socket + lock probe), close, OwnedFd::drop, handle_alloc_error"
-e_px!(e_px_add_foreign_ack, 6, 1);
-// @harness props=C18,C06 tier=thorough reach=off timeout=500 bound="Backend::shmem_map answered by bytes without the REPLY flag" stubs="raw_recvmsg/raw_sendmsg (ghost socket + lock probe), close, OwnedFd::drop, handle_alloc_error"
-e_px!(e_px_map_noreplyflag, 9, 2);
-// @harness props=C18,C06 tier=thorough reach=off timeout=500 bound="Backend::shared_object_lookup answered by a version-2 header" stubs="raw_recvmsg/raw_sendmsg (ghost socket + lock probe), close, OwnedFd::drop, handle_alloc_error"
-e_px!(e_px_lookup_version2, 8, 3);
+// @harness props=C18,C01,C06,C07,C10 tier=quick reach=off timeout=500 bound="Backend::shared_object_add: all argument bytes; REPLY_ACK not negotiated: no acknowledgement written or awaited; conformant ack header" stubs="raw_recvmsg/raw_sendmsg (ghost socket + lock probe), OwnedFd::drop, handle_alloc_error, From<vhost_user::Error> for io::Error (payload dropped)"
+e_px!(e_px_shared_object_add_noack, 6, 0, 2);
+// @harness props=C18,C01,C06,C07,C10 tier=quick reach=off timeout=500 bound="Backend::shared_object_add: all argument bytes; feature flag not set: refused, nothing on the wire; conformant ack header" stubs="raw_recvmsg/raw_sendmsg (ghost socket + lock probe), OwnedFd::drop, handle_alloc_error, From<vhost_user::Error> for io::Error (payload dropped)"
+e_px!(e_px_shared_object_add_gated, 6, 0, 1);
+// @harness props=C18,C01,C06,C07,C10 tier=thorough reach=off timeout=500 bound="Backend::shared_object_remove: all argument bytes; REPLY_ACK not negotiated: no acknowledgement written or awaited; conformant ack header" stubs="raw_recvmsg/raw_sendmsg (ghost socket + lock probe), OwnedFd::drop, handle_alloc_error, From<vhost_user::Error> for io::Error (payload dropped)"
+e_px!(e_px_shared_object_remove_noack, 7, 0, 2);
+// @harness props=C18,C01,C06,C07,C10 tier=thorough reach=off timeout=500 bound="Backend::shared_object_remove: all argument bytes; feature flag not set: refused, nothing on the wire; conformant ack header" stubs="raw_recvmsg/raw_sendmsg (ghost socket + lock probe), OwnedFd::drop, handle_alloc_error, From<vhost_user::Error> for io::Error (payload dropped)"
+e_px!(e_px_shared_object_remove_gated, 7, 0, 1);
+// @harness props=C18,C01,C06,C07,C10,C09 tier=thorough reach=off timeout=500 bound="Backend::shared_object_lookup: all argument bytes; REPLY_ACK not negotiated: no acknowledgement written or awaited; conformant ack header" stubs="raw_recvmsg/raw_sendmsg (ghost socket + lock probe), OwnedFd::drop, handle_alloc_error, From<vhost_user::Error> for io::Error (payload dropped)"
+e_px!(e_px_shared_object_lookup_noack, 8, 0, 2);
+// @harness props=C18,C01,C06,C07,C10,C09 tier=thorough reach=off timeout=500 bound="Backend::shared_object_lookup: all argument bytes; feature flag not set: refused, nothing on the wire; conformant ack header" stubs="raw_recvmsg/raw_sendmsg (ghost socket + lock probe), OwnedFd::drop, handle_alloc_error, From<vhost_user::Error> for io::Error (payload dropped)"
+e_px!(e_px_shared_object_lookup_gated, 8, 0, 1);
+// @harness props=C18,C01,C06,C07,C10,C09 tier=quick reach=off timeout=500 bound="Backend::shmem_map: all argument bytes; REPLY_ACK not negotiated: no acknowledgement written or awaited; conformant ack header" stubs="raw_recvmsg/raw_sendmsg (ghost socket + lock probe), OwnedFd::drop, handle_alloc_error, From<vhost_user::Error> for io::Error (payload dropped)"
+e_px!(e_px_shmem_map_noack, 9, 0, 4);
+// @harness props=C18,C01,C06,C07,C10,C09 tier=quick reach=off timeout=500 bound="Backend::shmem_map: all argument bytes; feature flag not set: refused, nothing on the wire; conformant ack header" stubs="raw_recvmsg/raw_sendmsg (ghost socket + lock probe), OwnedFd::drop, handle_alloc_error, From<vhost_user::Error> for io::Error (payload dropped)"
+e_px!(e_px_shmem_map_gated, 9, 0, 1);
+// @harness props=C18,C01,C06,C07,C10 tier=thorough reach=off timeout=500 bound="Backend::shmem_unmap: all argument bytes; REPLY_ACK not negotiated: no acknowledgement written or awaited; conformant ack header" stubs="raw_recvmsg/raw_sendmsg (ghost socket + lock probe), OwnedFd::drop, handle_alloc_error, From<vhost_user::Error> for io::Error (payload dropped)"
+e_px!(e_px_shmem_unmap_noack, 10, 0, 4);
+// @harness props=C18,C01,C06,C07,C10 tier=thorough reach=off timeout=500 bound="Backend::shmem_unmap: all argument bytes; feature flag not set: refused, nothing on the wire; conformant ack header" stubs="raw_recvmsg/raw_sendmsg (ghost socket + lock probe), OwnedFd::drop, handle_alloc_error, From<vhost_user::Error> for io::Error (payload dropped)"
+e_px!(e_px_shmem_unmap_gated, 10, 0, 1);
+
+// ---- acknowledged requests at unit level: BackendInternal::send_message / wait_for_ack on an endpoint built
+// on the stack.  (Through the public methods the ack path converts every vhost_user::Error into a boxed
+// io::Error; CBMC ran out of memory on that - 14 and 40 GB - even with the conversion stubbed.  The public
+// wrappers are covered by the *_noack / *_gated harnesses above; what they add to this function is
+// `Ok(guard.send_message(..)?)`.)
+fn u_proxy_ack(op: u32, class: usize) {
+    let mut b = ManuallyDrop::new(BackendInternal {
+        // SAFETY: descriptor 5 is never used for real I/O
+        sock: Endpoint::<VhostUserMsgHeader<BackendReq>>::from_stream(unsafe { UnixStream::from_raw_fd(5) }),
+        reply_ack_negotiated: true,
+        shared_object_negotiated: true,
+        shmem_negotiated: true,
+        error: None,
+    });
+    let body: [u8; 40] = kani::any();
+    let ack_val: u64 = kani::any();
+    let nfds: usize = kani::any();
+    kani::assume(nfds <= 1);
+    // SAFETY: ghost state
+    unsafe {
+        let code = if class == 1 { op + 1 } else { op };
+        let flags = match class { 2 => 0x1, 3 => 0x6, 4 => 0x15, _ => 0x5 };
+        g::put_hdr(0, code, flags, 8);
+        g::put64(12, ack_val);
+        g::G.rx_len = 20;
+        g::G.rx_closed = false;
+        g::G.rx_nfds = nfds;
+    }
+    let req = match op {
+        6 => BackendReq::SHARED_OBJECT_ADD,
+        7 => BackendReq::SHARED_OBJECT_REMOVE,
+        8 => BackendReq::SHARED_OBJECT_LOOKUP,
+        9 => BackendReq::SHMEM_MAP,
+        _ => BackendReq::SHMEM_UNMAP,
+    };
+    let fds = [LENT_FD];
+    let with_fd = op == 8 || op == 9;
+    let r = if op <= 8 {
+        let mut ub = [0u8; 16];
+        ub.copy_from_slice(&body[..16]);
+        b.send_message(req, &VhostUserSharedMsg { uuid: uuid::Uuid::from_bytes(ub) }, if with_fd { Some(&fds[..]) } else { None })
+    } else {
+        let mut pad = [0u8; 7];
+        pad.copy_from_slice(&body[1..8]);
+        let m = VhostUserMMap { shmid: body[0], padding: pad, fd_offset: spec::rd64(&body, 8), shm_offset: spec::rd64(&body, 16), len: spec::rd64(&body, 24), flags: spec::rd64(&body, 32) };
+        b.send_message(req, &m, if with_fd { Some(&fds[..]) } else { None })
+    };
+    let ok = r.is_ok();
+    std::mem::forget(r);
+    kani::cover!(if class == 0 { ok } else { !ok }, "witness");
+    let size = if op <= 8 { 16 } else { 40 };
+    // SAFETY: ghost state
+    unsafe {
+        assert!(g::tx32(0) == op && g::tx32(4) == (spec::F_VERSION_1 | spec::F_NEED_REPLY) && g::tx32(8) == size as u32 && g::G.tx_len == 12 + size, "C18/C01: request with NEED_REPLY under REPLY_ACK");
+        assert!(g::tx64(12) == spec::rd64(&body, 0) && g::tx64(20) == spec::rd64(&body, 8));
+        assert!(g::G.tx_first_nfds == with_fd as usize && !g::G.tx_late_fds);
+        assert!(!g::G.blocked, "C18: no indefinite wait");
+        let conformant = class == 0 && nfds == 0;
+        if ok {
+            assert!(conformant && ack_val == 0, "C18/C06: success only for a zero ack that answers this request");
+        }
+        if conformant {
+            assert!(ok == (ack_val == 0), "C18: the call succeeds iff the handler returned zero");
+        }
+    }
+}
+macro_rules! u_px {
+    ($name:ident, $op:expr, $class:expr) => {
+        #[kani::proof]
+        #[kani::unwind(5)]
+        #[kani::stub(vmm_sys_util::sock_ctrl_msg::raw_recvmsg, g::ghost_recvmsg)]
+        #[kani::stub(vmm_sys_util::sock_ctrl_msg::raw_sendmsg, g::ghost_sendmsg)]
+        #[kani::stub(<std::os::fd::OwnedFd as std::ops::Drop>::drop, g::ghost_ownedfd_drop)]
+        #[kani::stub(std::alloc::handle_alloc_error, g::ghost_alloc_error)]
+        fn $name() {
+            u_proxy_ack($op, $class)
+        }
+    };
+}
+// @harness props=C18,C01,C06 tier=quick reach=off timeout=500 bound="BackendInternal::send_message+wait_for_ack for shared_object_add under REPLY_ACK: all body bytes, ack value, 0..=1 ack descriptors; conformant ack header" stubs="raw_recvmsg/raw_sendmsg (ghost socket), OwnedFd::drop, handle_alloc_error"
+u_px!(c18_u_ack_shared_object_add, 6, 0);
+// @harness props=C18,C01,C06 tier=quick reach=off timeout=500 bound="BackendInternal::send_message+wait_for_ack for shmem_map under REPLY_ACK: all body bytes, ack value, 0..=1 ack descriptors; conformant ack header" stubs="raw_recvmsg/raw_sendmsg (ghost socket), OwnedFd::drop, handle_alloc_error"
+u_px!(c18_u_ack_shmem_map, 9, 0);
+// @harness props=C18,C01,C06 tier=thorough reach=off timeout=500 bound="BackendInternal::send_message+wait_for_ack for shared_object_lookup under REPLY_ACK: all body bytes, ack value, 0..=1 ack descriptors; conformant ack header" stubs="raw_recvmsg/raw_sendmsg (ghost socket), OwnedFd::drop, handle_alloc_error"
+u_px!(c18_u_ack_shared_object_lookup, 8, 0);
+// @harness props=C18,C01,C06 tier=thorough reach=off timeout=500 bound="BackendInternal::send_message+wait_for_ack for shared_object_remove under REPLY_ACK: all body bytes, ack value, 0..=1 ack descriptors; conformant ack header" stubs="raw_recvmsg/raw_sendmsg (ghost socket), OwnedFd::drop, handle_alloc_error"
+u_px!(c18_u_ack_shared_object_remove, 7, 0);
+// @harness props=C18,C01,C06 tier=thorough reach=off timeout=500 bound="BackendInternal::send_message+wait_for_ack for shmem_unmap under REPLY_ACK: all body bytes, ack value, 0..=1 ack descriptors; conformant ack header" stubs="raw_recvmsg/raw_sendmsg (ghost socket), OwnedFd::drop, handle_alloc_error"
+u_px!(c18_u_ack_shmem_unmap, 10, 0);
+// @harness props=C18,C06 tier=quick reach=off timeout=500 bound="shared_object_add answered by an ack of class foreign_code: must be refused" stubs="raw_recvmsg/raw_sendmsg (ghost socket), OwnedFd::drop, handle_alloc_error"
+u_px!(c18_u_ack_foreign_code, 6, 1);
+// @harness props=C18,C06 tier=thorough reach=off timeout=500 bound="shared_object_add answered by an ack of class noreplyflag: must be refused" stubs="raw_recvmsg/raw_sendmsg (ghost socket), OwnedFd::drop, handle_alloc_error"
+u_px!(c18_u_ack_noreplyflag, 6, 2);
+// @harness props=C18,C06 tier=thorough reach=off timeout=500 bound="shared_object_add answered by an ack of class version2: must be refused" stubs="raw_recvmsg/raw_sendmsg (ghost socket), OwnedFd::drop, handle_alloc_error"
+u_px!(c18_u_ack_version2, 6, 3);
+// @harness props=C18,C06 tier=thorough reach=off timeout=500 bound="shared_object_add answered by an ack of class reservedbit: must be refused" stubs="raw_recvmsg/raw_sendmsg (ghost socket), OwnedFd::drop, handle_alloc_error"
+u_px!(c18_u_ack_reservedbit, 6, 4);
